@@ -111,6 +111,17 @@ def suite_pairs(ctx, res, n, n_tiny=0):
     # targeted family: tiny copy of a large donor with a far, non-foldable radial gradient (OverflowError fallback branch)
     cases += [fontgen.make_tiny_reuse_case(ctx.rng.getrandbits(32), fmt="glyf_colr_1") for i in range(n_tiny)]
     cases += [fontgen.make_origin_anchored_case(ctx.rng.getrandbits(32), fmt=FORMATS[i % 3]) for i in range(n_tiny // 2)]
+    # a shape and its non-uniformly scaled copy (in one document and across glyphs) sharing ONE userSpaceOnUse radial gradient:
+    # after reuse the folded gradient geometry coincides and only the leftover gradientTransform tells the two fills apart
+    from harness.props import C02
+    for i in range(max(2, n_tiny // 4)):
+        c = C02.shared_radial_case(ctx.rng, fmt=["picosvg", "glyf_colr_1"][i % 2])
+        if i % 4 < 2:   # same document: both shapes in one glyph
+            body = lambda sv: sv[sv.index("</defs>") + 7:sv.rindex("</svg>")]
+            c["svgs"] = [c["svgs"][0].replace("</svg>", body(c["svgs"][1]) + "</svg>")]
+            c["codepoints"] = [[0xE000]]
+            c["id"] += ":one-doc"
+        cases.append(c)
     from nanoemoji import paint as npaint
 
     orig_apply = npaint.PaintRadialGradient.apply_transform
